@@ -6,6 +6,7 @@ from .. import strcorpus, runner
 
 def generate(tier, rng, pid='C01'):
     enums = strcorpus.build_enums(rng, tier, pid)
+    enums += strcorpus.build_soup(rng, tier, pid)
     info = strcorpus.query_model(enums)
     c = Corpus()
     for e in enums:
